@@ -191,7 +191,35 @@ def has_packed_union(model):
     return any(walk(r, False) for r in model.records)
 
 
+def cluster_case(chk, k, case):
+    """full cross products of interacting option clusters (enum / alias / union styles) under the compile oracle"""
+    name, ext, text, flags = case
+    # two constructs of the shared cluster headers are recorded compile findings of their own (newtype alias of void; union template
+    # with a by-value type parameter, E0740): they stay in C12's no-panic workload only
+    text = text.replace("typedef void v_t; typedef v_t *vp_t; ", "").replace(" template <typename T> union tu { T t; int i; }; struct ht { tu<int> a; };", "")
+    d = chk.dir("cl%d" % (k % 32))
+    p = write(os.path.join(d, "cl%d.%s" % (k, ext)), text)
+    cargs = ["-std=c++17"] if ext == "hpp" else []
+    cname = "cluster-%s-%d" % (name, k)
+    if ext == "hpp":
+        flags = [f for f in flags if f not in ("--c-naming",)]
+    if "--disable-untagged-union" in flags or "--no-derive-copy" in flags:
+        return None        # recorded findings (E0133 accessors, packed / union representation), see known_findings.json
+    out = os.path.join(d, "cb%d.rs" % k)
+    rc, so, se, _ = sh([build.BINDGEN, p] + flags + ["-o", out, "--"] + cargs, timeout=120, cpu=100, cwd=d)
+    if rc != 0:
+        return Verdict(HELD, cname, obs={"bindgen_errors_deferred_to_C12": 1})
+    w = write(os.path.join(d, "cw%d.rs" % k), '#![allow(warnings)]\ninclude!("%s");\n' % out)
+    rcr, sor, ser, _ = sh(["rustc", "--edition", "2021", "--crate-type", "lib", "--emit=metadata", "-o", os.path.join(d, "cw%d.rmeta" % k), w], timeout=300)
+    if rcr == 0:
+        return Verdict(HELD, cname, obs={"option_cluster_compiles": 1}, nontrivial=True, key=cname)
+    return Verdict(VIOLATED, cname, "rustc rejects the bindings: " + first_errors(ser), files={"input." + ext: text, "flags.txt": " ".join(flags), "bindings.rs": open(out).read()},
+                   signature=signature(ser, text, flags, None, "cluster:" + name))
+
+
 def run(chk):
+    from .c12 import cluster_cases
+    chk.map(lambda kc: cluster_case(chk, kc[0], kc[1]), list(enumerate(cluster_cases())), budget_s=600)
     chk.map(lambda i: gen_case(chk, i), range(chk.pick(450, 6000)), budget_s=chk.pick(500, 3000))
     return chk.finish(
         rule="case = (header, option set, edition): headers from the families {generated C type graphs, function/variable libraries, "
